@@ -3,9 +3,13 @@
 (* operations on a real file, what every Read call returned) validated against *)
 (* the abstract Follow specification.  Records:                                *)
 (*   reset{t, poll, reopen, tail, init}   a new trace: the reader was opened   *)
+(*         (+ path: file | link-...)      (whether the path is a symbolic link  *)
+(*                                        is no parameter of the specification) *)
 (*                                        on a file holding init (Drain() run  *)
 (*                                        when tail)                            *)
 (*   append{data} remove{} create{}       logged BEFORE the operation is done   *)
+(*   other{what, name}                    an operation on a sibling of the      *)
+(*                                        followed path (Follow!EnvOther)        *)
 (*   read{data} eof{}                     logged AFTER Read returned           *)
 (*   quiet{}                              no Read returned for the liveness    *)
 (*                                        deadline: the specification must be  *)
@@ -34,11 +38,12 @@ TReset ==
 TAppend == IsEv("append") /\ EnvAppend(Ev.data) /\ UNCHANGED tid
 TRemove == IsEv("remove") /\ EnvRemove /\ UNCHANGED tid
 TCreate == IsEv("create") /\ EnvCreate /\ UNCHANGED tid
+TOther  == IsEv("other") /\ EnvOther /\ UNCHANGED tid
 TRead   == IsEv("read") /\ Deliver(Ev.data) /\ UNCHANGED tid
 TEof    == IsEv("eof") /\ End /\ UNCHANGED tid
 TQuiet  == IsEv("quiet") /\ Complete /\ UNCHANGED <<mode, files, cur, start, delivered, ended, fresh, dom, tid>>
 
-TStep == TReset \/ TAppend \/ TRemove \/ TCreate \/ TRead \/ TEof \/ TQuiet
+TStep == TReset \/ TAppend \/ TRemove \/ TCreate \/ TOther \/ TRead \/ TEof \/ TQuiet
 
 RECURSIVE NextReset(_)
 NextReset(i) == IF i > Len(Trace) \/ Trace[i].event = "reset" THEN i ELSE NextReset(i + 1)
